@@ -16,6 +16,8 @@ use crate::util::Tier;
 mod gen_big;
 #[path = "gen_dirty.rs"]
 mod gen_dirty;
+#[path = "gen_edge.rs"]
+mod gen_edge;
 #[path = "gen_fault.rs"]
 mod gen_fault;
 #[path = "gen_feat.rs"]
@@ -35,8 +37,8 @@ mod gen_space;
 #[path = "gen_time.rs"]
 mod gen_time;
 
-pub const SCENARIOS: [&str; 11] =
-    ["ns", "file", "space", "ro", "dirty", "time", "flush", "fault", "feat", "foreign", "big"];
+pub const SCENARIOS: [&str; 12] =
+    ["ns", "file", "space", "ro", "dirty", "time", "flush", "fault", "feat", "foreign", "big", "edge"];
 
 /// Where finished histories go: printed as scripts (`gen`) or executed (`hist`).
 pub struct Sink<'a> {
@@ -81,6 +83,7 @@ pub fn run(scenario: &str, tier: Tier, seed: u64, exec: bool, extra: &[String], 
         "feat" => gen_feat::run(tier, seed, &mut rng, n_override, &mut sink),
         "foreign" => gen_foreign::run(tier, seed, &mut rng, n_override, &mut sink),
         "big" => gen_big::run(tier, seed, &mut rng, n_override, &mut sink),
+        "edge" => gen_edge::run(tier, seed, &mut rng, n_override, &mut sink),
         _ => return false,
     }
     true
@@ -121,6 +124,17 @@ pub struct VolCfg {
     pub root_entries: u32,
     /// byte offset of the mount-time status byte in the boot sector
     pub status_off: u64,
+    /// reserved sectors, sectors per FAT, number of FAT copies
+    pub reserved: u32,
+    pub spf: u32,
+    pub fats: u32,
+}
+
+impl VolCfg {
+    /// Byte offset of FAT entry 1 in copy `copy` (FAT16 / FAT32).
+    pub fn fat1_off(&self, copy: u32) -> u64 {
+        (self.reserved as u64 + copy as u64 * self.spf as u64) * self.bps as u64 + if self.bits == 32 { 4 } else { 2 }
+    }
 }
 
 fn probe_cfg(fmt: &FormatArgs, total_sectors: u32, dev_size: u64, want: VolClass) -> Option<VolCfg> {
@@ -146,6 +160,9 @@ fn probe_cfg(fmt: &FormatArgs, total_sectors: u32, dev_size: u64, want: VolClass
         clusters: p.total_clusters,
         root_entries: if bits == 32 { 0 } else { fmt.root as u32 },
         status_off: if bits == 32 { 0x41 } else { 0x25 },
+        reserved: p.reserved_sectors,
+        spf: p.sectors_per_fat,
+        fats: p.fats as u32,
     })
 }
 
